@@ -12,7 +12,7 @@ from fractions import Fraction
 # ---------------------------------------------------------------------------------
 # syntactic write set of a loop body
 
-def write_set(ip, body_nodes, st):
+def write_set(ip, body_nodes, st, view_names=()):
     """names assigned, (object, field) stores, lists mutated - found syntactically in the
     loop body and (transitively) in the bodies of repository functions called through a
     local name's attribute (obj.method(...))."""
@@ -53,6 +53,8 @@ def write_set(ip, body_nodes, st):
                         o = _static_obj(ip, t.value, st)
                         if o is not None:
                             attrs.add((o.oid, t.attr))
+                        elif isinstance(t.value, ast.Name) and t.value.id in view_names:
+                            pass      # store through an element view of the iterated list (handled by the caller)
                         else:
                             attrs.add((None, ast.unparse(t)))
                     if isinstance(t, ast.Subscript):
@@ -150,7 +152,17 @@ def havoc_list(ip, lst, name, shape=None):
         shape = shape_of_value(sample)
     arr_name = ctx.fresh_name(name)
     lst.items = None
-    lst.elem = shape.array_elem(ctx, arr_name)
+    base = shape.array_elem(ctx, arr_name)
+    oid = lst.oid
+
+    def elem(j, base=base, oid=oid):
+        v = base(j)
+        if isinstance(v, SObj):
+            v.fields['__owner'] = oid
+        return v
+    if hasattr(base, 'base_array'):
+        elem.base_array = base.base_array
+    lst.elem = elem
     n = ctx.fresh_int(name + '.len')
     ctx.axiom(n >= 0)
     lst.length = SNum(n)
@@ -255,7 +267,28 @@ def _cut(ip, node, st, lc, seq, n):
     fi = st.frame.finfo
     tag = f'{fi.qualname}#loop@L{node.lineno}'
     is_for = seq is not None
-    names, attrs, lists = write_set(ip, node.body, st)
+    view_names = set()
+    view_owners = set()
+    if is_for:
+        for e in ast.walk(node.target):
+            if isinstance(e, ast.Name):
+                view_names.add(e.id)
+        probe = ip.seq_elem(seq, SNum(z3.Int(ctx.fresh_name('probe'))))
+        for v in (probe if isinstance(probe, tuple) else (probe,)):
+            if isinstance(v, SObj) and '__owner' in v.fields:
+                view_owners.add(v.fields['__owner'])
+    names, attrs, lists = write_set(ip, node.body, st, view_names)
+    stores_through_views = any(
+        isinstance(t, ast.Attribute) and isinstance(t.value, ast.Name) and t.value.id in view_names
+        for n in node.body for c in ast.walk(n) if isinstance(c, (ast.Assign, ast.AugAssign, ast.AnnAssign))
+        for t in (c.targets if isinstance(c, ast.Assign) else [c.target]))
+    keep_len = set()
+    if stores_through_views:
+        from .interp import find_by_oid as _fbo
+        for oid in view_owners:
+            if oid not in lists:
+                lists.add(oid)
+                keep_len.add(oid)
     frame = st.frame
     idx_name = lc.index or '_i'
     if is_for:
@@ -328,7 +361,10 @@ def _cut(ip, node, st, lc, seq, n):
                 shp = lc.types[k]
                 nm = k
         from .contract import ListOf as _ListOf
+        old_len = l.length if not l.concrete else len(l.items)
         havoc_list(ip, l, nm, shp.elem if isinstance(shp, _ListOf) else shp)
+        if oid in keep_len:
+            l.length = old_len
     for src in lc.havoc:
         raise EngineError('explicit havoc entries not implemented')
 
